@@ -65,6 +65,7 @@ def serial_send_contract(self, msg, in_transaction=False):
 
 
 SEQ_BOUND = {"n": 3}
+_building_for_c17 = False
 
 
 class SeqModel:
@@ -299,6 +300,28 @@ def units(tier):
                lambda ctx, world: mk_hid(ctx, world), USE)
     any_length("serial.run_sequence/any-length", "dali.driver.serial:DriverSerialBase.run_sequence",
                SER.DriverSerialBase.run_sequence, mk_ser, USE0 + [SER_SEND])
+    # the sender must never go to sleep while a report for it is already queued (lost wake-up: it would hang holding the
+    # transaction lock, and with it every other caller) - the safety core of "every caller eventually completes";
+    # units shared with C16
+    import checks.c16 as C16
+    if not getattr(C16, "_building_for_c15", False):
+        C16._building_for_c15 = True
+        C16._building_for_c18 = True          # C16's own sharing with C18 is not needed here
+        try:
+            for u16 in C16.units(tier):
+                if u16.name.startswith("C16/tridonic/_send_raw/"):
+                    U.append(Unit("C15/no-lost-wakeup/" + u16.name[len("C16/"):], "C15", None, None, use=u16.use, width=72,
+                                  kind="custom", runner=u16.runner, max_paths=200000))
+        finally:
+            C16._building_for_c15 = False
+            C16._building_for_c18 = False
+    # the serial drivers' own send(): lock discipline under cancellation at every await (units shared with C17)
+    if not _building_for_c17:
+        import checks.c17 as C17
+        for u17 in C17.units(tier):
+            if "/send-cancelled-at-any-await" in u17.name:
+                U.append(Unit("C15/" + u17.name[len("C17/"):], "C15", None, None, use=u17.use, width=72, kind="custom",
+                              runner=u17.runner, max_paths=200000))
     return U
 
 
